@@ -259,22 +259,17 @@ impl<H: DnsHandle> DnssecDnsHandle<H> {
             }
         }
 
+        // Only NSEC3 records whose own RRset was validated take part in a proof. (A Secure record
+        // of another type with the same owner name - e.g. a wildcard-expanded RRset - says nothing
+        // about an NSEC3 record next to it.)
         let nsec3s = message
             .authorities
             .iter()
-            .filter_map(|rr| {
-                if message
-                    .authorities
-                    .iter()
-                    .any(|r| r.name == rr.name && r.proof == Proof::Secure)
-                {
-                    match &rr.data {
-                        RData::DNSSEC(DNSSECRData::NSEC3(nsec3)) => Some((&rr.name, nsec3)),
-                        _ => None,
-                    }
-                } else {
-                    None
+            .filter_map(|rr| match &rr.data {
+                RData::DNSSEC(DNSSECRData::NSEC3(nsec3)) if rr.proof == Proof::Secure => {
+                    Some((&rr.name, nsec3))
                 }
+                _ => None,
             })
             .collect::<Vec<_>>();
 
